@@ -12,3 +12,6 @@ import RzmqModel.Props.C02
 #print axioms Rzmq.C02.per_pipe_fifo
 #print axioms Rzmq.C02.detach_cleared_stash_counterexample
 #print axioms Rzmq.C02.mp_ignores_stash_counterexample
+#print axioms Rzmq.C02.push_source_shape
+#print axioms Rzmq.C02.push_routes_only_whole_messages
+#print axioms Rzmq.C02.framewise_load_balancing_tears_messages
